@@ -469,3 +469,35 @@ Theorem model_case_passes_prop_ok : forall cfg srcs,
   keys_distinct (map of_w srcs) -> prop_ok (model_case cfg srcs) = true.
 Proof. exact model_case_passes. Qed.
 Print Assumptions model_case_passes_prop_ok.
+
+(* ================= the public views never show the internal pair (finding C12-WRAPPERLEAK, repaired by 43b4ee065) ===== *)
+Theorem tostringmap_typed : forall v, has_exp (sanitize v) = false.
+Proof. exact sanitize_wrapper_free. Qed.
+Print Assumptions tostringmap_typed.
+
+(* the former witness (receivers: ${file:r}, file r = {port: ${env:P}}): the port is typed now *)
+Theorem tostringmap_typed_regression :
+  exists t, resolve leak_def leak_retrieve leak_srcs = Ok t /\ sanitize t = leak_typed_view.
+Proof. exact wrapper_leak_regression. Qed.
+Print Assumptions tostringmap_typed_regression.
+
+(* ================= round 7: whole configurations, default scheme ================= *)
+
+(* the work budget is PER VALUE: a configuration of any number of values, each within the budget, resolves — however
+   many references it holds in total (leaf-wise resolution: resolve_leaf starts every leaf with a used count of 0) *)
+Theorem resolve_many_values : forall def retrieve txt d (kts : list (str * list tok)),
+  kts <> [] ->
+  Forall (fun kt => wf def retrieve (nval txt) (snd kt) /\ good def retrieve txt d (snd kt) /\
+                    nanchored txt d (snd kt) /\ cost txt d (snd kt) <= max_expansions) kts ->
+  resolve def retrieve [CMap (map (fun kt => (fst kt, CStr (flatten (snd kt)))) kts)]
+  = Ok (CMap (map (fun kt => (fst kt, CStr (mean txt d (snd kt)))) kts)).
+Proof. exact many_values. Qed.
+Print Assumptions resolve_many_values.
+
+(* a name without scheme is answered by the provider of the CONFIGURED default scheme, whatever it is called *)
+Theorem scheme_less_name_uses_default_scheme : forall def retrieve opq,
+  has_char cColon opq = false -> valid_scheme def = true ->
+  expand_uri def retrieve (ref_text opq) =
+  if has_char cDollar opq then Err [EDollarInName] else retrieve def opq.
+Proof. exact expand_uri_default. Qed.
+Print Assumptions scheme_less_name_uses_default_scheme.
